@@ -60,9 +60,9 @@ def mode_regions(B):
 def run(ctx):
     P = ctx.P
     # ---- clause 1: only exact-read primitives on the read path ------------------
-    ctx.rule('C05.1-exact-reads', 'socket reads in framing.rs / transport.rs / connection.rs use only exact-read primitives (read_exact, read_uN); short-read APIs do not occur', floor=5)
+    ctx.rule('C05.1-exact-reads', 'socket reads in framing.rs / transport.rs / connection.rs use only exact-read primitives (read_exact, read_uN); short-read APIs do not occur', floor=3)
     ctx.rule('C05.1-reader-identity', 'every socket read is issued on the reader the function was given (a parameter or a field of self), never on a buffering adaptor created per call', floor=4)
-    ctx.rule('C05.2-read-result-used', 'the result of every exact read is inspected (?-propagated or matched), never discarded: end-of-stream inside a frame is an error', floor=5)
+    ctx.rule('C05.2-read-result-used', 'the result of every exact read is inspected (?-propagated or matched), never discarded: end-of-stream inside a frame is an error', floor=3)
     n = 0
     for B in P.all('edp_client'):
         if B.b['file'] not in READ_FILES:
@@ -240,7 +240,7 @@ def run(ctx):
                 ctx.bad('C05.4-width-tables', inst, 'prefix width %s, expected %d for %s mode (%s)' % (w, want[vn], vn, detail), key='TABLE:framing:%s' % inst)
 
     # writers accept every message that fits the prefix
-    ctx.rule('C05.6-accepts-all-that-fit', 'no guard in a frame writer refuses a message whose length the prefix can express: at the site that writes an N-bit prefix the admissible length range reaches 2^N - 1', floor=4)
+    ctx.rule('C05.6-accepts-all-that-fit', 'no guard in a frame writer refuses a message whose length the prefix can express: at the site that writes an N-bit prefix the admissible length range reaches 2^N - 1', floor=2)
     for name in ('frame_message', 'write_framed'):
         B = P.B(fns[name])
         if B is None:
